@@ -15,7 +15,7 @@ namespace C14
 
 /-! ## Euler (3-2-1) → quaternion helper: proper rotation for EVERY yaw, pitch, roll (gimbal poles included) -/
 theorem e2q_spec (y p r : ℝ) : bezier.eulerB321_to_quat.q_vec y p r = SO3Quat.from_Euler.r_vec ![y, p, r] := by
-  funext i; fin_cases i <;> simp [cas_defs, cas_real]
+  funext i; fin_cases i <;> simp [cas_defs, cas_real] <;> (try ring1)
 
 theorem eulerB321_to_quat_proper (y p r : ℝ) :
     qnormSq (bezier.eulerB321_to_quat.q_vec y p r) = 1
